@@ -48,6 +48,7 @@ type recKV struct {
 	muts    []string                               // mutation log (every call that can change the DHT)
 	gets    []string                               // keys read through Get
 	getHook func(key string) ([]byte, error, bool) // optional override of Get
+	delHook func(key string) error // optional: make the Delete of a key fail
 	succ    []chord.VNode
 	succErr error
 }
@@ -108,6 +109,14 @@ func (k *recKV) Get(ctx context.Context, key []byte) ([]byte, error) {
 }
 func (k *recKV) Delete(ctx context.Context, key []byte) error {
 	k.logMut("Delete %s", key)
+	k.mu.Lock()
+	h := k.delHook
+	k.mu.Unlock()
+	if h != nil {
+		if err := h(string(key)); err != nil {
+			return err // the delete failed: nothing was removed
+		}
+	}
 	return k.mem.Delete(ctx, key)
 }
 func (k *recKV) PrefixAppend(ctx context.Context, prefix, child []byte) error {
